@@ -117,13 +117,13 @@ def run(tier):
   cov = {
       'evaluations': n,
       'distinct_nontrivial': R.counts['confirmed'] + R.counts['refuted'],
-      'rule': 'one obligation per (builtin, call shape) with symbolic int/float/bool/str(len<=2)/List[int](len<=4) '
+      'rule': 'one obligation per (builtin, call shape) with symbolic int/float/bool/List[int](len<=4); strings handed to C-level parsers and print are all strings of length <= 2 over the 16-symbol alphabet vf.harness.c14.ALPHA (8 symbols where a base / separator is enumerated too), floats handed to int() the 11 values of FLOATS, enumerate start -3..3 '
               'values, plus converted programs calling eval/locals/globals/super() in functionalised blocks; '
               'an obligation is counted as distinct+non-trivial when CrossHair reached a conclusive verdict for it '
               '(all shapes are pairwise different call forms)',
       'call_shapes': c14.HARNESSES,
       'reachability_twin': twin.get('verdict'),
-      'outside_bounds': 'str longer than 2, lists longer than 4, user objects with custom dunders, '
+      'outside_bounds': 'strings outside the alphabet or longer than 2, lists longer than 4, user objects with custom dunders, '
                         'range arguments beyond +-5',
   }
   return R.finish(cov, assumptions=[
